@@ -105,11 +105,28 @@ def run(ctx):
                'ACK must wait for timer.tx_allowed (or speed == HIGH): %s' % q.fmt(a))
     # every new token returns the decoder to idle (so a stale SETUP never pairs with a later data packet);
     # among the accepted-packet outcomes, later m.next wins -- decide by exact outcome enumeration
+    SETUP = '13 == self.tokenizer.pid'
     for st in read_states:
-        outs = state_outcomes(f, st, {'self.tokenizer.new_token': True, 'data_handler.new_packet': False})
+        outs = state_outcomes(f, st, {'self.tokenizer.new_token': True, 'data_handler.new_packet': False, SETUP: False})
         ok = set(outs) == {idle}
         ctx.ob('C06.token-aborts', 'USBSetupDecoder.read', ok, f.state_loc[st],
-               'a new token while waiting for the SETUP data must return to idle; outcomes %s' % sorted(map(str, outs)))
+               'a new non-SETUP token while waiting for the SETUP data must return to idle; outcomes %s' % sorted(map(str, outs)))
+        # ... but a new SETUP token (the host retrying after a corrupted or lost data packet) starts a new transaction:
+        # the data packet that follows it must be taken, i.e. the decoder keeps waiting for data
+        outs = state_outcomes(f, st, {'self.tokenizer.new_token': True, 'data_handler.new_packet': False, SETUP: True})
+        ok = set(outs) <= (set(read_states) | {None})
+        ctx.ob('C06.setup-token-restarts', 'USBSetupDecoder.read', ok, f.state_loc[st],
+               'a new SETUP token while still waiting for the data packet of an earlier SETUP (whose data packet was corrupted '
+               'or lost) must keep the decoder waiting for data, otherwise the retried transaction is missed; outcomes %s'
+               % sorted(map(str, outs)))
+    # a CRC-valid data packet of the wrong length ends the transaction: the decoder must not stay armed, or the data
+    # packet of a later, unrelated transaction (another device's OUT data) would be taken for the SETUP payload
+    for st in read_states:
+        outs = state_outcomes(f, st, {'self.tokenizer.new_token': False, 'data_handler.new_packet': True,
+                                      '8 == data_handler.length': False})
+        ctx.ob('C06.wrong-length-aborts', 'USBSetupDecoder.read', set(outs) == {idle}, f.state_loc[st],
+               'a data packet that is not 8 bytes long must end the SETUP transaction (back to idle) without a report; '
+               'outcomes %s' % sorted(map(str, outs)))
     # states that wait for the gap must be reachable only from the accepted-packet edge and leave only with an ack
     for st in f.states:
         if st == idle or st in read_states:
